@@ -157,6 +157,12 @@ pub fn check_cell(sub: &str, expr: &str, doc_text: &str, st: &mut Stats) -> Case
 }
 
 fn cell_text(name: &str, classes: &[usize], variant: usize, src: &mut Src) -> (String, String) {
+    cell_text_mode(name, classes, variant, src, false)
+}
+
+/// `repeat`: every argument whose class equals its predecessor's is the predecessor again, and
+/// arguments are document fields (the very same value object reaches the function twice).
+fn cell_text_mode(name: &str, classes: &[usize], variant: usize, src: &mut Src, repeat: bool) -> (String, String) {
     let mut doc = std::collections::BTreeMap::new();
     let mut args = vec![];
     for (i, c) in classes.iter().enumerate() {
@@ -165,8 +171,14 @@ fn cell_text(name: &str, classes: &[usize], variant: usize, src: &mut Src) -> (S
             args.push(EXPREF_VARIANTS[variant].to_string());
             continue;
         }
+        // the same argument again (the very same field or literal) when the class repeats
+        if i > 0 && classes[i - 1] == *c && (repeat || src.chance(110)) {
+            let again = args[i - 1].clone();
+            args.push(again);
+            continue;
+        }
         let v = representative(cls, src);
-        if src.flip() {
+        if repeat || src.flip() {
             let k = format!("a{}", i);
             doc.insert(k.clone(), v);
             args.push(k);
@@ -216,6 +228,16 @@ fn table(env: &Env, st: &mut Stats) -> Vec<Failure> {
                                     let mut fl = fails.lock().unwrap();
                                     if fl.len() < 40 {
                                         fl.push(f);
+                                    }
+                                }
+                                // the same cell with repeated arguments being one and the same field
+                                if rep == 0 && (1..classes.len()).any(|i| classes[i] == classes[i - 1] && CLASSES[classes[i]] != "expref") {
+                                    let (expr, doc) = cell_text_mode(sig.name, &classes, variant, &mut src, true);
+                                    if let Err(f) = check_cell("table", &expr, &doc, &mut local) {
+                                        let mut fl = fails.lock().unwrap();
+                                        if fl.len() < 40 {
+                                            fl.push(f);
+                                        }
                                     }
                                 }
                                 if rep == 0 && variant == 0 {
